@@ -271,6 +271,24 @@ def run(ctx: Context) -> None:
                     if has_count and has_cap:
                         found = True
         ctx.add("R2", f"{c.qualname}::capacity-comparison", found, loop.loc(), "" if found else detail)
+        # the size the pool is STARTED with is the capacity the loop refills to: a start loop over a local that was
+        # computed from the capacity attribute (max(floor, self.<cap>), self.<cap> + 1, ...) starts a pool the refill
+        # never restores once workers die
+        st_m = c.find_method("_on_start")
+        if st_m is not None:
+            for lp in [n for n in walk_no_nested(st_m.node) if isinstance(n, ast.For) and isinstance(n.iter, ast.Call) and call_name(n.iter) == "range" and len(n.iter.args) == 1 and any("spawn" in (call_name(x) or "") for x in calls_in(n))]:
+                e = lp.iter.args[0]
+                caps = [a for a in CAPACITY_ATTRS if any(isinstance(x, ast.Attribute) and x.attr == a and isinstance(x.value, ast.Name) and x.value.id == "self" for x in ast.walk(e))]
+                okS, whyS = True, ""
+                if isinstance(e, ast.Name):
+                    dvals = [n.value for n in walk_no_nested(st_m.node) if isinstance(n, ast.Assign) and any(isinstance(t, ast.Name) and t.id == e.id for t in n.targets)]
+                    for dv in dvals:
+                        mentioned = [a for a in CAPACITY_ATTRS if any(isinstance(x, ast.Attribute) and x.attr == a and isinstance(x.value, ast.Name) and x.value.id == "self" for x in ast.walk(dv))]
+                        if mentioned:
+                            okS, whyS = False, f"the pool is started with `{e.id} = {ast.unparse(dv)[:60]}` workers but refilled to self.{mentioned[0]}: after worker deaths it stays below the size it was started with"
+                elif caps and not (isinstance(e, ast.Attribute) and e.attr in CAPACITY_ATTRS):
+                    okS, whyS = False, f"the pool is started with `{ast.unparse(e)[:60]}` workers, an expression over self.{caps[0]}, but refilled to self.{caps[0]}"
+                ctx.add("R2", f"{c.qualname}::start-size-is-the-refill-capacity", okS, st_m.loc(lp), whyS)
         # a capacity option whose raw value has a sentinel ("0 = number of CPUs") is resolved once
         # (`self.A = ... self.conf.B or <fallback> ...`); pool-size decisions must use the resolved value
         resolved: dict[str, tuple[str, ast.AST]] = {}
